@@ -44,7 +44,7 @@ struct SampleRun {
     }
 
     void op_zp(const Op& op) {
-        int which = (int) op.arg(1) % 4; if (view == 0 && which >= 2) which -= 2;
+        int which = (int) op.arg(1) % 4;      // 2 and 3 are C++-only entry points (no C wrapper exists); they run identically under both views
         begin((uint64_t) op.arg(0), op.s);
         Frv out; memset(out.b, 0xCD, 32); uint64_t c4[4] = {0, 0, 0, 0}; const char* nm;
         if (which == 0) { nm = "zp_random"; R.jv_zp_random(view, out.b, jv_rand_cb); }
